@@ -654,12 +654,74 @@ func RunPackTrees(id, tier string) int {
 		rep.States += len(relCases)
 		planStats = append(planStats, map[string]any{"set": "relative-allow-list × reused packer", "runs": len(relCases)})
 	}
+	if id == "C20" {
+		// E2: the tree changes while Pack runs. One deviation per run: at the k-th call of
+		// the output writer one regular file is cut or extended. Whenever Pack still
+		// reports success, the returned Meta must describe the slug it wrote.
+		touchTrees := [][]TNode{
+			{{Path: "src/a", Kind: "file", Body: "aaaa"}},
+			{{Path: "src/a", Kind: "file", Body: "aaaa"}, {Path: "src/b", Kind: "file", Body: "bbbbbb"}},
+			{{Path: "src/l", Kind: "link", Target: "../out/f"}, {Path: "out/f", Kind: "file", Body: "ffff"}, {Path: "src/z", Kind: "file", Body: "zz"}},
+			{{Path: "src/big", Kind: "file", Body: "<NOISE:300000>"}, {Path: "src/z", Kind: "file", Body: "zz"}},
+			{{Path: "src/a", Kind: "file", Body: "aaaa"}, {Path: "src/big", Kind: "file", Body: "<NOISE:300000>"}},
+		}
+		var tjobs []PackArg
+		for _, t := range touchTrees {
+			base := PackArg{Nodes: t, Deref: true, NoTrees: true}
+			var probe PackOut
+			pool(0).Map("pack", 1, func(int) any { return base }, func(_ int, r core.Result) { core.MustOut(r, &probe) })
+			for k := 1; k <= probe.WriteCalls; k++ {
+				if !thorough && k > 8 && k%64 != 0 {
+					continue // quick: the first 8 writer calls and every 64th after them
+				}
+				for _, n := range t {
+					if n.Kind != "file" {
+						continue
+					}
+					for _, size := range []int64{0, 1, 7, 400000} {
+						a := base
+						a.TouchAt, a.TouchPath, a.TouchSize = k, n.Path, size
+						tjobs = append(tjobs, a)
+					}
+				}
+			}
+		}
+		hit, succeeded := 0, 0
+		pool(0).Map("pack", len(tjobs), func(i int) any { return tjobs[i] }, func(i int, r core.Result) {
+			rep.Evaluations++
+			a := tjobs[i]
+			desc := fmt.Sprintf("tree [%s] deref=true; at writer call %d file %s is resized to %d bytes", TreeString(a.Nodes), a.TouchAt, a.TouchPath, a.TouchSize)
+			if r.Hung || r.Crashed {
+				rep.Violation("slug.Pack/hang-or-crash", desc, "pack", a)
+				return
+			}
+			var out PackOut
+			core.MustOut(r, &out)
+			if out.Touched {
+				hit++
+			}
+			mism, verdict := checkC20(out)
+			if !verdict {
+				rep.NoVerdict++
+				rep.Outcome("resized-while-packing:pack-error")
+				return
+			}
+			succeeded++
+			rep.Outcome("resized-while-packing:packed-and-compared")
+			rep.Nontrivial(fmt.Sprintf("touch:%d:%s:%d:%d", a.TouchAt, a.TouchPath, a.TouchSize, out.Size))
+			if len(mism) > 0 {
+				rep.Violation("slug.Pack/resized-while-packing/"+classOf(mism), desc+" :: "+strings.Join(mism, "; "), "pack", a)
+			}
+		})
+		rep.States += len(tjobs)
+		planStats = append(planStats, map[string]any{"set": "file resized at every writer call (E2, one deviation)", "runs": len(tjobs), "deviation_reached": hit, "pack_succeeded": succeeded})
+	}
 	rep.Extra["sets"] = planStats
 	switch id {
 	case "C02":
 		rep.Rule = "every tree of <=k nodes over a 26-node alphabet (names: long, non-ASCII, space, dot, dash; empty file/dir; links sibling/parent/dir/dangling/chained; fifo; .git/.terraform content) × {ignore,deref} × {root,uid 65534}, plus single/double attribute deviations (modes 0000-0777, mtime fractions); real Pack then real Unpack; recursive comparison of source and unpacked tree. Non-trivial = pack succeeded and trees were compared; distinct by decoded slug."
 	case "C20":
-		rep.Rule = "C02 trees ∪ C05 trees × option sets; returned Meta compared with an independent decode of the slug. Non-trivial = pack succeeded; distinct by decoded slug."
+		rep.Rule = "C02 trees ∪ C05 trees × option sets; returned Meta compared with an independent decode of the slug. Non-trivial = pack succeeded; distinct by decoded slug. Plus E2: on 5 trees (one with a 300 kB incompressible file so that output is written while it is read) one regular file is resized to {0,1,7,400000} bytes at every call of the output writer (quick: calls 1-8 and every 64th); a Pack that still succeeds must return matching Meta."
 	case "C05":
 		rep.Rule = "fixed skeleton (content of every file = its own path, so provenance is readable from the bytes) + every set of <=k links over 33 (position,target) pairs × {deref} × {allow-list} × {ignore}; oracles: provenance of every regular entry, no stored link that physically resolves outside, relative link entries stay inside the archive root, Unpack accepts the result, out-of-tree link without deref ⇒ IllegalSlugError."
 	}
